@@ -262,6 +262,7 @@ static inline bool post_splice(struct ubuf *ubuf, int offset, int size, struct u
     int64_t o = offset < 0 ? (int64_t)g_o.total + offset : (int64_t)offset;
     if (g_spl_calls == 0) return ret == NULL;
     if (g_spl_calls != 1 || o < 0 || o >= (int64_t)g_o.total) return false;
+    { size_t ro, rn; if (!spec_range(g_o.total, offset, size, &ro, &rn)) return false; }       /* the manager is only asked for ranges inside the block */
     size_t st = spec_start(ubuf, g_spl_seg);
     if (st == (size_t)-1 || (int64_t)st + g_spl_off != o || (size_t)g_spl_off >= SB(g_spl_seg)->size) return false;
     if (g_spl_size != (size == -1 ? (int)((int64_t)g_o.total - o) : size)) return false;
